@@ -5,6 +5,7 @@ import OciModel.Driver.Err
 import OciModel.Driver.Mem
 import OciModel.Driver.Req
 import OciModel.Driver.Upload
+import OciModel.Driver.Pager
 
 structure DState where
   scopes : OciModel.Driver.Scope.Regs := []
@@ -21,6 +22,8 @@ def step (st : DState) (line : String) : DState × String :=
     let (m, out) := OciModel.Driver.Mem.drive st.mem rest
     ({ st with mem := m }, out)
   | "srv" :: _ => (st, "skip")
+  | "cl" :: _ => (st, "skip")
+  | "pg" :: rest => (st, OciModel.Driver.Pager.drive rest)
   | "up" :: rest =>
     let (u, out) := OciModel.Driver.Upload.drive st.up rest
     ({ st with up := u }, out)
